@@ -49,6 +49,9 @@ fn with_world<R>(f: impl FnOnce(&mut World) -> R) -> R {
 }
 
 fn new_doc_id() -> u32 {
+    if !sched::baton() {
+        return 0; // free-running mode (Miri): no bookkeeping that would synchronise the threads
+    }
     with_world(|w| {
         w.next_doc += 1;
         let id = w.next_doc;
@@ -58,6 +61,9 @@ fn new_doc_id() -> u32 {
 }
 
 fn acquire(origins: &[u32]) {
+    if !sched::baton() {
+        return;
+    }
     with_world(|w| {
         for o in origins {
             *w.origin_refs.entry(*o).or_insert(0) += 1;
@@ -66,6 +72,9 @@ fn acquire(origins: &[u32]) {
 }
 
 fn release(origins: &[u32]) {
+    if !sched::baton() {
+        return;
+    }
     with_world(|w| {
         for o in origins {
             if let Some(c) = w.origin_refs.get_mut(o) {
@@ -80,6 +89,9 @@ fn release(origins: &[u32]) {
 
 /// conservation: live arenas never exceed the number of live origin documents + live deserializers
 fn check_conservation(what: &str) -> Result<(), Violation> {
+    if !sched::baton() {
+        return Ok(());
+    }
     let live = sched::ARENAS_LIVE.load(Ordering::SeqCst);
     let (bound, base) = with_world(|w| ((w.origin_refs.len() + w.live_desers) as i64, w.baseline));
     if live - base > bound {
@@ -92,6 +104,25 @@ fn check_conservation(what: &str) -> Result<(), Violation> {
         return Err(Violation::new("arena/released-twice", format!("after {}: live arena count dropped below the baseline ({})", what, live - base)));
     }
     Ok(())
+}
+
+fn desers(delta: i64) {
+    if sched::baton() {
+        with_world(|w| w.live_desers = (w.live_desers as i64 + delta) as usize);
+    }
+}
+
+thread_local! {
+    static NEXT_KEY: std::cell::Cell<u32> = const { std::cell::Cell::new(0) };
+}
+
+/// a key no object of this run has yet (per thread counter, no shared state)
+fn fresh_key(prefix: &str) -> String {
+    let k = NEXT_KEY.with(|c| {
+        c.set(c.get() + 1);
+        c.get()
+    });
+    format!("{}{}_{}", prefix, sched::me().unwrap_or(9), k)
 }
 
 fn merge(a: &mut Vec<u32>, b: &[u32]) {
@@ -114,9 +145,32 @@ struct Three {
     c: Value,
 }
 
+thread_local! {
+    /// documents this thread has generated in this run: a later parse often takes one of them again
+    /// (same text, same shape: the allocator then hands back the very same addresses)
+    static RECENT_DOCS: std::cell::RefCell<Vec<(J, String)>> = const { std::cell::RefCell::new(Vec::new()) };
+}
+
 fn gen_doc(cfg: &GenCfg) -> (J, String) {
+    let again = RECENT_DOCS.with(|r| {
+        let r = r.borrow();
+        if !r.is_empty() && chance(1, 3) {
+            Some(r[draw(r.len() as u32) as usize].clone())
+        } else {
+            None
+        }
+    });
+    if let Some(d) = again {
+        return d;
+    }
     let j = if chance(1, 8) { gen::gen_scalar(cfg) } else { gen::gen_container(cfg) };
     let text = gen::render(&j, &Style { ws: draw(3), esc: draw(2) });
+    RECENT_DOCS.with(|r| {
+        let mut r = r.borrow_mut();
+        if r.len() < 4 {
+            r.push((j.clone(), text.clone()));
+        }
+    });
     (j, text)
 }
 
@@ -223,46 +277,46 @@ fn thread_body(t: usize, nthreads: usize, nops: u32, cfg: GenCfg, errs: Arc<Mute
                         2 => {
                             // (allocated in library scope: freeing it poisons it, so a value pointing into it is noticed)
                             let b = crate::heap::lib(|| bytes::Bytes::from(text.clone()));
-                            with_world(|w| w.live_desers += 1);
+                            desers(1);
                             let r = libcall("Deserializer::from_json(Bytes)", || {
                                 let mut de = Deserializer::from_json(&b);
                                 let r = de.deserialize::<Value>();
                                 drop(de);
                                 r
                             });
-                            with_world(|w| w.live_desers -= 1);
+                            desers(-1);
                             r?.map_err(|e| parse_err("Deserializer(Bytes)", &text, e))?
                         }
                         3 => {
                             let f = crate::heap::lib(|| sonic_rs::FastStr::new(&text));
-                            with_world(|w| w.live_desers += 1);
+                            desers(1);
                             let r = libcall("Deserializer::from_json(FastStr)", || {
                                 let mut de = Deserializer::from_json(&f);
                                 de.deserialize::<Value>()
                             });
-                            with_world(|w| w.live_desers -= 1);
+                            desers(-1);
                             r?.map_err(|e| parse_err("Deserializer(FastStr)", &text, e))?
                         }
                         4 => {
                             // value embedded in a struct: the copying path, arena owned by the deserializer
                             let wrapped = crate::heap::lib(|| format!("{{\"v\":{}}}", text));
-                            with_world(|w| w.live_desers += 1);
+                            desers(1);
                             let r = libcall("from_str::<Wrapper>", || sonic_rs::from_str::<Wrapper>(&wrapped));
-                            with_world(|w| w.live_desers -= 1);
+                            desers(-1);
                             r?.map_err(|e| parse_err("from_str::<Wrapper>", &wrapped, e))?.v
                         }
                         5 => {
-                            with_world(|w| w.live_desers += 1);
+                            desers(1);
                             let r = libcall("use_rawnumber", || Deserializer::from_str(&text).use_rawnumber().deserialize::<Value>());
-                            with_world(|w| w.live_desers -= 1);
+                            desers(-1);
                             r?.map_err(|e| parse_err("use_rawnumber", &text, e))?
                         }
                         8 => {
                             // raw numbers on the copying path: the value sits inside a struct
                             let wrapped = format!("{{\"v\":{}}}", text);
-                            with_world(|w| w.live_desers += 1);
+                            desers(1);
                             let r = libcall("use_rawnumber + Wrapper", || Deserializer::from_str(&wrapped).use_rawnumber().deserialize::<Wrapper>());
-                            with_world(|w| w.live_desers -= 1);
+                            desers(-1);
                             let v = r?.map_err(|e| parse_err("use_rawnumber + Wrapper", &wrapped, e))?.v;
                             scrub(wrapped);
                             v
@@ -270,9 +324,9 @@ fn thread_body(t: usize, nthreads: usize, nops: u32, cfg: GenCfg, errs: Arc<Mute
                         9 => {
                             // raw numbers, second element of a Vec<Value>
                             let wrapped = format!("[1.50, {}]", text);
-                            with_world(|w| w.live_desers += 1);
+                            desers(1);
                             let r = libcall("use_rawnumber + Vec<Value>", || Deserializer::from_str(&wrapped).use_rawnumber().deserialize::<Vec<Value>>());
-                            with_world(|w| w.live_desers -= 1);
+                            desers(-1);
                             let mut vs = r?.map_err(|e| parse_err("use_rawnumber + Vec<Value>", &wrapped, e))?;
                             scrub(wrapped);
                             let v = vs.pop().unwrap();
@@ -284,7 +338,7 @@ fn thread_body(t: usize, nthreads: usize, nops: u32, cfg: GenCfg, errs: Arc<Mute
                             // document whose error must not disturb the value we keep
                             let bad = *pick(MALFORMED);
                             let all = crate::heap::lib(|| format!("[0] {} {}", text, bad));
-                            with_world(|w| w.live_desers += 1);
+                            desers(1);
                             let r = libcall("Deserializer: good, good, malformed", || {
                                 let mut de = Deserializer::from_str(&all);
                                 let first = de.deserialize::<Value>();
@@ -293,7 +347,7 @@ fn thread_body(t: usize, nthreads: usize, nops: u32, cfg: GenCfg, errs: Arc<Mute
                                 drop(first);
                                 (second, third.is_err())
                             });
-                            with_world(|w| w.live_desers -= 1);
+                            desers(-1);
                             let (second, third_failed) = r?;
                             trace::bump(C::dom_rejected_ops);
                             if !third_failed {
@@ -304,9 +358,9 @@ fn thread_body(t: usize, nthreads: usize, nops: u32, cfg: GenCfg, errs: Arc<Mute
                         _ => {
                             // second element of a Vec<Value>
                             let wrapped = crate::heap::lib(|| format!("[0, {}]", text));
-                            with_world(|w| w.live_desers += 1);
+                            desers(1);
                             let r = libcall("from_str::<Vec<Value>>", || sonic_rs::from_str::<Vec<Value>>(&wrapped));
-                            with_world(|w| w.live_desers -= 1);
+                            desers(-1);
                             let mut vs = r?.map_err(|e| parse_err("from_str::<Vec<Value>>", &wrapped, e))?;
                             let v = vs.pop().unwrap();
                             libcall("drop vec", move || drop(vs))?;
@@ -323,9 +377,9 @@ fn thread_body(t: usize, nthreads: usize, nops: u32, cfg: GenCfg, errs: Arc<Mute
                     let text = format!("{{\"a\":{},\"b\":{} ,\"c\": {}}}", docs[0].1, docs[1].1, docs[2].1);
                     tr!("T{} parse struct {}", t, oracle::truncate(&text));
                     let ids: Vec<u32> = (0..3).map(|_| new_doc_id()).collect();
-                    with_world(|w| w.live_desers += 1);
+                    desers(1);
                     let r = libcall("from_str::<Three>", || sonic_rs::from_str::<Three>(&text));
-                    with_world(|w| w.live_desers -= 1);
+                    desers(-1);
                     let three = r?.map_err(|e| parse_err("from_str::<Three>", &text, e))?;
                     scrub(text);
                     trace::add(C::stream_values, 3);
@@ -352,7 +406,7 @@ fn thread_body(t: usize, nthreads: usize, nops: u32, cfg: GenCfg, errs: Arc<Mute
                         let text = parts.join(*pick(&[" ", "\n", "  "]));
                         tr!("T{} open stream {}", t, oracle::truncate(&text));
                         let src = Arc::new(text);
-                        with_world(|w| w.live_desers += 1);
+                        desers(1);
                         // SAFETY (harness): `src` is kept alive next to the stream
                         let s: &'static str = unsafe { std::mem::transmute::<&str, &'static str>(src.as_str()) };
                         let raw = chance(1, 3);
@@ -408,7 +462,7 @@ fn thread_body(t: usize, nthreads: usize, nops: u32, cfg: GenCfg, errs: Arc<Mute
                         let Stream { stream, _src, .. } = s;
                         libcall("drop stream", move || drop(stream))?;
                         scrub_arc(_src);
-                        with_world(|w| w.live_desers -= 1);
+                        desers(-1);
                     }
                 }
                 // ---- clone root / subtree
@@ -484,10 +538,7 @@ fn thread_body(t: usize, nthreads: usize, nops: u32, cfg: GenCfg, errs: Arc<Mute
                                     a.push(mm);
                                 }
                                 J::Obj(o) => {
-                                    let key = with_world(|w| {
-                                        w.next_key += 1;
-                                        format!("ins{}", w.next_key)
-                                    });
+                                    let key = fresh_key("ins");
                                     tr!("T{} insert #{} into object #{} as {:?}", t, j, i, key);
                                     let old = libcall("as_object_mut+insert", || tv.as_object_mut().map(|ob| ob.insert(&key, mv)))?
                                         .ok_or_else(|| Violation::new("mismatch/as_object_mut", format!("{}: None on an object", what)))?;
@@ -557,10 +608,7 @@ fn thread_body(t: usize, nthreads: usize, nops: u32, cfg: GenCfg, errs: Arc<Mute
                                             o.clear();
                                         }
                                         1 => {
-                                            let key = with_world(|w| {
-                                                w.next_key += 1;
-                                                format!("t{}", w.next_key)
-                                            });
+                                            let key = fresh_key("t");
                                             libcall("Object::insert", || h.insert(&key, false))?;
                                             o.push((key, J::Bool(false)));
                                         }
@@ -643,10 +691,7 @@ fn thread_body(t: usize, nthreads: usize, nops: u32, cfg: GenCfg, errs: Arc<Mute
                                         o.clear();
                                     }
                                     _ => {
-                                        let key = with_world(|w| {
-                                            w.next_key += 1;
-                                            format!("m{}", w.next_key)
-                                        });
+                                        let key = fresh_key("m");
                                         tr!("T{} #{} insert {:?}: true", t, i, key);
                                         libcall("insert", || it.v.as_object_mut().unwrap().insert(&key, true))?;
                                         o.push((key, J::Bool(true)));
@@ -689,10 +734,45 @@ fn thread_body(t: usize, nthreads: usize, nops: u32, cfg: GenCfg, errs: Arc<Mute
                     if !got.is_empty() {
                         tr!("T{} received {} value(s)", t, got.len());
                     }
+                    // sometimes this thread is a pure consumer: it looks at what it got and lets go of it at once,
+                    // so a document's last owner is often not the thread that parsed it
+                    let consume = !got.is_empty() && chance(1, 3);
                     for it in got {
                         read_item(&it, &what)?;
-                        bag.push(it);
+                        if consume {
+                            let Item { v, origins, .. } = it;
+                            libcall("drop received", move || drop(v))?;
+                            release(&origins);
+                        } else {
+                            bag.push(it);
+                        }
                     }
+                }
+                // ---- hand-off: parse, give the document away untouched, let the others run, parse the same
+                // text again (same sizes: with the heap in reuse mode the new arena may land where the old was)
+                19 if nthreads > 1 && chance(1, 2) => {
+                    let (j, text) = gen_doc(&cfg);
+                    let mut k = draw(nthreads as u32 - 1) as usize;
+                    if k >= t {
+                        k += 1;
+                    }
+                    tr!("T{} hand-off to T{} then parse again doc={}", t, k, oracle::truncate(&text));
+                    let id = new_doc_id();
+                    trace::bump(C::dom_parsed_roots);
+                    let v = libcall("from_str", || sonic_rs::from_str::<Value>(&text))?.map_err(|e| parse_err("from_str", &text, e))?;
+                    trace::bump(C::value_sent_to_thread);
+                    trace::nontrivial();
+                    with_world(|w| w.mailboxes[k].push(Item { v, m: j.clone(), origins: vec![id], big: false }));
+                    for _ in 0..range(1, 4) {
+                        sched::yield_point(100);
+                    }
+                    let id = new_doc_id();
+                    trace::bump(C::dom_parsed_roots);
+                    let v = libcall("from_str", || sonic_rs::from_str::<Value>(&text))?.map_err(|e| parse_err("from_str", &text, e))?;
+                    scrub(text);
+                    let it = Item { v, m: j, origins: vec![id], big: false };
+                    read_item(&it, &what)?;
+                    bag.push(it);
                 }
                 // ---- shared board: one Value read and cloned from by several threads at once
                 20 => {
@@ -788,7 +868,7 @@ fn thread_body(t: usize, nthreads: usize, nops: u32, cfg: GenCfg, errs: Arc<Mute
             let Stream { stream, _src, .. } = s;
             let r = libcall("drop stream at thread end", move || drop(stream));
             scrub_arc(_src);
-            with_world(|w| w.live_desers -= 1);
+            desers(-1);
             r
         } else {
             Ok(())
@@ -811,7 +891,11 @@ pub fn run() -> SimResult {
     cfg.node_budget = *pick(&[5u32, 10, 20]);
     cfg.max_str = *pick(&[4u32, 12, 40, 80]);
     cfg.classes = gen::CL_PLAIN | if chance(1, 3) { gen::CL_QUOTE | gen::CL_U2 } else { 0 };
-    let allow_big = chance(1, 40);
+    // swarm knob: freed blocks are poisoned and quarantined (use-after-free reads poison), or handed out
+    // again at once by exact size (stale address-keyed state gets its chance)
+    crate::heap::set_reuse_mode(draw(3) == 0, ((draw(u32::MAX) as u64) << 20) ^ draw(u32::MAX) as u64);
+    let allow_big = chance(1, 40) && !cfg!(miri);
+    NEXT_KEY.with(|c| c.set(0));
     let baseline = sched::ARENAS_LIVE.load(Ordering::SeqCst);
     *WORLD.lock().unwrap_or_else(|e| e.into_inner()) = Some(World {
         origin_refs: HashMap::new(),
